@@ -4,12 +4,19 @@ package pool
 
 // Contracts checked / assumed by /verif/gvc. Comment-only file (build tag verif).
 
-// sync.Pool is outside the verifier's reach (interface{} round trip, runtime internals). The
-// assumed contract states what its callers rely on: a non-nil metric that nothing else the
-// caller holds refers to, whose tag buffer (if any) is likewise unshared.
+// sync.Pool itself is outside the verifier's reach (interface{} round trip, runtime internals). What this package
+// relies on is stated as what the call p.Get() yields (assumed, listed in the evidence): a *gostatsd.Metric that
+// nothing else the caller holds refers to (nor to its tag buffer), which is either brand new (New: every field
+// zero) or was handed back through its DoneFunc (the only Put is inside the DoneFunc that Get itself installs).
+// MetricPool.Get is verified against that: whatever state a recycled metric is in, what Get returns is clean.
 //@ func (*MetricPool).Get
-//@   trusted
-//@   requires mp != nil
+//@   requires mp != nil && 0 <= mp.estimatedTags && mp.estimatedTags <= 1000000
+//@   callsite Get yields isType(result, gostatsd.Metric) && payload(result, gostatsd.Metric) != nil && fresh(payload(result, gostatsd.Metric))
+//@   callsite Get yields base(payload(result, gostatsd.Metric).Tags) == 0 || fresh(base(payload(result, gostatsd.Metric).Tags))
+//@   callsite Get yields payload(result, gostatsd.Metric).DoneFunc == nil ==> payload(result, gostatsd.Metric).Name == "" && payload(result, gostatsd.Metric).Value == 0.0 && payload(result, gostatsd.Metric).TagsKey == "" && payload(result, gostatsd.Metric).StringValue == "" && payload(result, gostatsd.Metric).Source == "" && payload(result, gostatsd.Metric).Timestamp == 0 && payload(result, gostatsd.Metric).Type == 0 && len(payload(result, gostatsd.Metric).Tags) == 0
 //@   ensures  result != nil && fresh(result)
 //@   ensures  base(result.Tags) == 0 || fresh(base(result.Tags))
 //@   ensures  len(result.Tags) == 0
+//@   ensures  [clean] result.Name == "" && result.Value == 0.0 && result.Rate == 1.0 && result.TagsKey == "" && result.StringValue == "" && result.Source == "" && result.Timestamp == 0 && result.Type == 0
+//@   ensures  result.DoneFunc != nil
+//@   modifies mp.p
